@@ -1,6 +1,7 @@
 import BigtoolsModel.WriteGenBed
 import BigtoolsModel.AutoSqlNTest
 import BigtoolsModel.AutoSqlTotal
+import BigtoolsModel.AutoSqlCount
 /-! # C19 — the stored autoSql always matches the data; the schema parser is total
 
 Model: `ASN.parseAutosql` (module `AutoSqlN`): the cursor parser of `bed/autosql.rs` over code points, with the
@@ -15,6 +16,13 @@ open ASN
 theorem generated_schema_declares_3_plus_n_fields :
     (List.range 41).all (fun n => fieldCount asciiCC true (bedAutosql n) = 3 + n) = true := by
   decide +kernel
+
+/-- **No bound on the number of columns**: for EVERY `n`, the schema generated for `n` extra columns carries exactly `3 + n`
+    declaration terminators (`;`) — one per column of the data, by induction over the generator's two loops (the table of
+    standard BED fields, regenerated from the source, then the numbered `lstring` fields). The parser-level statement above is
+    the kernel-decided finite quantifier; this one is what holds beyond it. -/
+theorem generated_schema_has_one_declaration_per_column (n : Nat) : (bedAutosql n).count 59 = 3 + n :=
+  bedAutosql_terminators n
 
 /-- The same for the parser as found (the generator never emits `enum`/`set`, so the defect D8 is not reached). -/
 theorem generated_schema_declares_3_plus_n_fields_as_found :
